@@ -664,7 +664,12 @@ pub fn run_property(def: PropertyDef, tier: Tier, seed: u64, only: Option<&str>,
 				}
 				let sc = &def.checks[i];
 				if let Some(o) = only {
-					if sc.name() != o {
+					// exact name, or a prefix written as `prefix*`
+					let hit = match o.strip_suffix('*') {
+						Some(pre) => sc.name().starts_with(pre),
+						None => sc.name() == o,
+					};
+					if !hit {
 						continue;
 					}
 				}
